@@ -263,7 +263,10 @@ def plStep (p : Impl.Policy.Policy) (line : String) (t : Tally) : Except String 
                if unlinked then "update_old_unlinked" else "update")
       | ["delete", id] => .ok (Impl.Policy.delete (retire id.toNat! p0) id.toNat!, "delete")
       | ["access", id] => .ok (Impl.Policy.access p0 id.toNat!, "access")
-      | ["evict"] => .ok (Impl.Policy.evictNodes p0, "evictNodes")
+      | ["evict"] =>
+          -- the model's loop bound must never cut the eviction loop short (hypothesis of Props.C04.c04_bound_after_evictNodes)
+          if Impl.Policy.evictNodesRanOut p0 then .error "evictNodes: the model's loop bound was reached (the code's loop is unbounded)"
+          else .ok (Impl.Policy.evictNodes p0, "evictNodes")
       | ["climb"] => .ok (Impl.Policy.climb p0, "climb")
       | _ => .error "unknown line"
     -- the hypothesis of Proofs.PolicyLink.Reach, checked on the real trace: a node is introduced at most once
